@@ -59,7 +59,7 @@ PROPS['C05'] = dict(
         functions=['OperatorProduct::transform', 'OperatorSum::transform/add', 'ScalarMultiplication::transform', 'operator*(O1,O2)', 'operator+(O1,O2)', 'operator-(O1,O2)',
                    'operator*(S,O)', 'operator*(O,S)', 'operator/(O,S)', 'operator+(O,S)', 'operator+(S,O)', 'operator-(O,S)', 'operator-(S,O)', 'operator-(O)',
                    'SplineOperator::transform', 'Derivative::transform', 'Position::transform', 'IdentityOperator::transform', 'transformSpline']))],
-    bounds=dict(quick='expression trees: 10 named (commutator, hydrogen-like, generator, ...) + all 198 trees with one composite node over the leaves {I, X<1>, X<2>, Dx<1>, Dx<2>, SplineOperator(v)} with scalars of type T (symbolic) and int (literals, incl. int divisors) + 160 seed-selected trees with two composite nodes; operand orders 0..2; factor order 1; every operand window x every factor window on grids of 2..4 symbolic points',
+    bounds=dict(quick='expression trees: 10 named (commutator, hydrogen-like, generator, ...) + all 198 trees with one composite node over the leaves {I, X<1>, X<2>, Dx<1>, Dx<2>, SplineOperator(v)} with scalars of type T (symbolic) and int (literals, incl. int divisors) + all 315 nestings of two builder functions (unary over unary, binary over a unary child on either side) + 160 seed-selected further trees with two composite nodes; operand orders 0..2; factor order 1; every operand window x every factor window on grids of 2..4 symbolic points',
                 thorough='all 2808 two-level trees of the generator, operand orders 0..3, factor orders 1 and 2, grids of 2..5 points'),
     outside='deeper trees than two composite nodes above the leaves; X<n>/Dx<n> with n>2 inside expressions (covered alone by C04); lvalue operator operands (do not compile); scalar types other than T and int',
     assumptions=['grid points strictly increasing reals', 'T-typed divisor non-zero', 'exact real arithmetic (sym::Real), not IEEE'],
@@ -243,7 +243,7 @@ _SAN = dict(always_sanitize=True)
 _MEMKINDS = ['stl-assert', 'asan', 'signal', 'divzero', 'memory', 'spec']
 PROPS['C09'] = dict(
     engine='A+B', irsym=[dict(module='c13', checks=[0, 1, 4, 6], params=dict(quick=dict(nmax_data=3), thorough=dict(nmax_data=4))),
-                        dict(module='c18', tiers=['thorough'], params=dict(thorough=dict(nmax=3)), select=dict(thorough=['chk_eval', 'chk_eval1', 'chk_add', 'chk_mul', 'chk_splop', 'chk_bilin', 'chk_linform', 'chk_applyX1', 'chk_scopy']))],
+                        dict(module='c18', tiers=['thorough'], params=dict(thorough=dict(nmax=3)), select=dict(thorough=['chk_eval', 'chk_eval1', 'chk_add_shared', 'chk_add_distinct', 'chk_mul', 'chk_splop', 'chk_bilin', 'chk_linform', 'chk_applyX1', 'chk_scopy']))],
     b_timeout_s=dict(quick=900, thorough=3000),
     technique='(A) symbolic-scalar execution of the real templates under checked STL + AddressSanitizer + UBSan on every solver-enumerated path; reachability of a zero divisor decided by the solver at every scalar division; (B) symbolic execution of the compiled IR with 64-bit symbolic indices/windows where every load/store is resolved by the solver against the live objects',
     only_kinds=_MEMKINDS,
@@ -283,15 +283,15 @@ PROPS['C13'] = dict(
     level_text='Bounded symbolic model checking of the compiled code: the window algebra and the index conversions are decided for every 64-bit index and window (not a sample), which is where the interesting inputs are single points of a 2^64 space (index+1 wrapping to 0). Union/intersection are proved equal to hull/meet-with-empty-normalisation, commutative (reversed call), idempotent (aliased call), associative (two chained real calls each way); equality, accessors, size/interval count and iteration bounds are proved to describe the same window; checked accessors must throw for every index outside.',
     level_note='64-bit indices exact; grid size abstract up to 2^60 where data is not read, <=3 (4) points otherwise; trusted: clang -O1 lowering, irsym executor (differentially validated), stubs, z3.')
 
-_C18_QUICK = ['chk_eval1', 'chk_iszero', 'chk_sfront', 'chk_sback', 'chk_scopy', 'chk_overlap', 'chk_sequal', 'chk_applyX3', 'chk_applyDx1', 'chk_bilin', 'chk_scalarprod', 'chk_linform', 'chk_scale', 'chk_module_scan']
+_C18_QUICK = ['chk_eval1', 'chk_eval', 'chk_iszero', 'chk_sfront', 'chk_sback', 'chk_scopy', 'chk_overlap', 'chk_sequal', 'chk_applyX1', 'chk_applyX3', 'chk_applyDx1', 'chk_add_shared', 'chk_add_distinct', 'chk_mul', 'chk_splop', 'chk_bilin', 'chk_scalarprod', 'chk_linform', 'chk_scale', 'chk_generate1', 'chk_module_scan']
 PROPS['C18'] = dict(
     engine='B', technique='non-interference by symbolic execution of the compiled IR: every store/atomic/global access of each const operation is logged per path and checked against the ownership of the memory it hits; findings replayed with 4 threads under ThreadSanitizer',
-    irsym=[dict(module='c18', tsan_driver='tsan_driver.cpp', params=dict(quick=dict(nmax=3), thorough=dict(nmax=3)), select=dict(quick=_C18_QUICK, thorough=None)),
+    irsym=[dict(module='c18', tsan_driver='tsan_driver.cpp', params=dict(quick=dict(nmax=3, gen_sizes=[2]), thorough=dict(nmax=4, gen_sizes=[2, 3])), select=dict(quick=_C18_QUICK, thorough=None)),
            dict(module='c13', checks=[2, 3], params=dict(quick=dict(nmax_data=3), thorough=dict(nmax_data=3)))],
     b_timeout_s=dict(quick=900, thorough=3000),
-    bounds=dict(quick='operations on Spline<double,k<=2> (evaluation, isZero, front/back, copy construction + destruction, checkOverlap, ==, scalar multiple, X<3>/Dx<1> application, bilinear form, scalar product, linear form) with windows of every operand and the grid size (2..3) as 64-bit symbolic values, grid points symbolic IEEE doubles, coefficients unconstrained; two-operand operations additionally with the operands on two distinct grid vectors (so Grid::operator== runs its element loop); Support union/intersection/equality as in C13',
-                thorough='adds evaluation on order 2, X<1> application, operator+, operator*(Spline), SplineOperator application (heap allocation, vector growth, memmove, all destructors)'),
-    outside='interleavings are not enumerated (the non-interference theorem is in the trusted base); operations on non-const shared objects (not promised by the library); grids above 3 points; BSplineGenerator::generateBSplines (wrapper exists, not yet explored: path count); the last-owner release of a grid (use_count >= 2 assumed for shared grids)',
+    bounds=dict(quick='19 operations on Spline<double,k<=2> (evaluation on orders 1 and 2, isZero, front/back, copy construction + destruction, checkOverlap, ==, scalar multiple, operator+, operator*(Spline), X<1>/X<3>/Dx<1>/SplineOperator application (heap allocation, vector growth, memmove, all destructors), bilinear form, scalar product, linear form, generateBSplines<1> on a const generator over a 2-point grid) with windows of every operand and the grid size (2..3) as 64-bit symbolic values, grid points symbolic IEEE doubles, coefficients unconstrained; two-operand operations additionally with the operands on two distinct grid vectors (so Grid::operator== runs its element loop); Support union/intersection/equality as in C13',
+                thorough='grids of 2..4 points; generator over 2- and 3-point grids'),
+    outside='interleavings are not enumerated (the non-interference theorem is in the trusted base); operations on non-const shared objects (not promised by the library); grids above 3 (4) points; generators with other knot patterns than simple knots with doubled ends; the last-owner release of a grid (use_count >= 2 assumed for shared grids)',
     assumptions=['operands satisfy their class invariants', 'every grid involved is shared (use_count >= 2)', 'atomic read-modify-write on the use count behaves atomically (hardware/compiler)', 'C++11 thread-safe initialisation of function-local statics', 'allocation does not fail; the allocator is thread-safe'],
     trusted=B_TRUST + ['the non-interference theorem: writes only to thread-private memory or atomic RMW on counters + no non-atomic write to any location another thread reads => data-race freedom and sequentially identical results'],
     level_text='Bounded symbolic model checking of a sufficient condition: for all inputs within the bound, each operation writes only to its own stack, to heap it allocated on that path or to its result object; the only accesses that modify shared memory are atomic RMWs on shared_ptr use counts (balanced at the end); no mutable global is read or written; results do not depend on the count. Interleavings need not be enumerated because the premise of the non-interference theorem is established for every operation.',
